@@ -8,6 +8,7 @@ from specs import lifecycle
 def build(run):
     lifecycle.verify_run_tasks(run)
     lifecycle.verify_stop_sblocks(run)
+    lifecycle.verify_init_async(run)         # the initialisation tasks are handed to _run_tasks as a list it can walk again when it is cancelled
     lifecycle.verify_run_forever(run)
     lifecycle.verify_api(run, helper_task=True)
     run.replayer('Circuit.wait_init/raises:not_running_or_failed/post0', lambda run_, ob, model: open('/verif/specs/replay_c08c.py').read())
